@@ -137,7 +137,130 @@ def joined_with_gap(text: str, l0: int, skip: int) -> bool:
     return js.lines == (lines[0].lines[0], lines[-1].lines[1]) and js.string.count(NL) == js.lines[1] - js.lines[0]
 
 
-FUNCS = ['span_clone', 'span_clone_partial', 'line_clones', 'line_clones_of_span', 'string_clone', 'joined', 'joined_with_gap']
+
+# ---- FortranReader: mapping between the sanitized string (comments / blank lines removed, continuations joined) and the
+# original file.  The reader is built once (concretely); the SPAN into the sanitized string is symbolic.
+from loki.frontend.source import FortranReader
+
+READER_TEXT = NL.join([
+    '! leading comment',
+    'module m',
+    '',
+    '  ! a comment line',
+    '  integer :: a, &',
+    '     &       b',
+    '  real :: x   ! trailing comment',
+    '!$loki some-pragma',
+    'contains',
+    '  subroutine s(n)',
+    '    integer, intent(in) :: n',
+    '',
+    '    ! comment before call',
+    '    call t(n, &',
+    '      &    a, &',
+    '      &    b)',
+    '    x = 1.0',
+    '  end subroutine s',
+    '! comment before end',
+    'end module m',
+    '! trailing comment 1',
+    '! trailing comment 2',
+])
+READER = FortranReader(READER_TEXT)
+RLINES = READER_TEXT.split(NL)
+RLEN = len(READER.sanitized_string)
+NSAN = len(READER.sanitized_lines)
+
+
+def _text_at(lines):
+    return NL.join(RLINES[lines[0] - 1:lines[1]])
+
+
+def reader_span_source(a: int, b: int, pad: bool) -> bool:
+    """
+    pre: 0 <= a <= b <= 172
+    post: _
+    """
+    # a Source cut out of the reader for a span of the sanitized string holds exactly the original text at its recorded
+    # lines, and these lines contain every original line of every sanitized line that starts inside the span
+    if b > RLEN:
+        return True
+    src = READER.source_from_sanitized_span((a, b), include_padding=pad)
+    starts = [k for k in range(NSAN) if a <= READER.sanitized_spans[k] < b]
+    if src is None:
+        return not starts
+    if src.string != _text_at(src.lines):
+        return False
+    for k in starts:
+        l0, l1 = READER.sanitized_lines[k].span
+        if l0 < src.lines[0] or l1 > src.lines[1]:
+            return False
+    return True
+
+
+def reader_sub_reader(a: int, b: int, pad: bool, a2: int, b2: int) -> bool:
+    """
+    pre: 0 <= a <= b <= 172 and 0 <= a2 <= b2 <= 60
+    post: _
+    """
+    # a reader cut out of a reader (as the block patterns do for nested program units) still maps its lines to the
+    # ORIGINAL file: line numbers are absolute, texts are the file's text at those lines
+    if b > RLEN:
+        return True
+    sub = READER.reader_from_sanitized_span((a, b), include_padding=pad)
+    if sub is None:
+        return True
+    if sub.source_lines:
+        whole = sub.to_source(include_padding=True)
+        if whole.string != _text_at(whole.lines):
+            return False
+    if sub.sanitized_lines:
+        body = sub.to_source()
+        if body.string != _text_at(body.lines):
+            return False
+    for part in (sub.source_from_head(), sub.source_from_tail()):
+        if part is not None and part.string != _text_at(part.lines):
+            return False
+    for _ in sub:
+        cur = sub.source_from_current_line()
+        if cur.string != _text_at(cur.lines):
+            return False
+    if sub.sanitized_lines and b2 <= len(sub.sanitized_string):
+        inner = sub.source_from_sanitized_span((a2, b2))
+        if inner is not None and inner.string != _text_at(inner.lines):
+            return False
+        sub2 = sub.reader_from_sanitized_span((a2, b2), include_padding=pad)
+        if sub2 is not None and sub2.sanitized_lines:
+            s2 = sub2.to_source()
+            if s2.string != _text_at(s2.lines):
+                return False
+    return True
+
+
+def reader_partition(pad: bool, a: int, b: int) -> bool:
+    """
+    pre: 0 <= a <= b <= 172
+    post: _
+    """
+    # head + sanitized body + tail of a (sub-)reader cover its original lines exactly once, in order
+    if b > RLEN:
+        return True
+    sub = READER.reader_from_sanitized_span((a, b), include_padding=pad)
+    if sub is None or not sub.source_lines or not sub.sanitized_lines:
+        return True
+    first = sub.line_offset + 1
+    last = sub.line_offset + len(sub.source_lines)
+    head, body, tail = sub.source_from_head(), sub.to_source(), sub.source_from_tail()
+    cur = first
+    for part in (head, body, tail):
+        if part is None:
+            continue
+        if part.lines[0] != cur:
+            return False
+        cur = part.lines[1] + 1
+    return cur == last + 1
+
+FUNCS = ['span_clone', 'span_clone_partial', 'line_clones', 'line_clones_of_span', 'string_clone', 'joined', 'joined_with_gap', 'reader_span_source', 'reader_sub_reader', 'reader_partition']
 
 
 def generate(tier):
